@@ -96,7 +96,7 @@ def string_kernels(tier, param):
         src = KERNELS.replace('{N}', str(N)).replace('{ALPHA}', alpha or "''").replace('{{','{').replace('}}','}')
         f = os.path.join(d, 'c12_kernels_gen.py'); open(f,'w').write(src)
         line = next(i for i,l in enumerate(src.split('\n'),1) if l.startswith(f'def {fn}(')) + 1
-        env = dict(os.environ); env['PYTHONPATH'] = f"/repo:{HERE}"
+        env = dict(os.environ); env['PYTHONPATH'] = f"{os.environ.get('VERIF_REPO','/repo')}:{HERE}"
         t0 = time.time()
         try:
             out = subprocess.run([sys.executable, '-W', 'ignore', '-m', 'crosshair', 'check', '--report_all', '--per_condition_timeout', str(cap), f"{f}:{line}"],
